@@ -112,7 +112,7 @@ class JoinGen:
             if struct == 'using-b2' and k == 0:
                 kname, ktype = idsets[1][0]
                 meas = [(kname, ktype)] + [m for m in meas]
-            nrows = r.choice([0, 1, 2, 3, 3, 4, 5, 6])
+            nrows = r.choice([0, 1, 2, 3, 4, 5, 6, 7, 8, 4, 5, 6])
             rows = self.rows(idsets[k], [m for m in meas if m[0] not in ID_TYPES], keypool, nrows)
             if struct == 'using-b2' and k == 0:
                 # insert the key-measure values (with nulls and values without partner)
